@@ -209,12 +209,69 @@ def gen_case(rng, quick=True):
             verts = [v[:vdim] for v in verts]
             routes = ["from_arrays"]   # raw containers are given 3-D points; only from_arrays pads
     rewraps = rng.choice([0, 1, 1, 2])
-    case = {"kind": kind, "verts": verts, "edges": edges, "faces": faces, "cells": cells, "eattrs": eattrs,
+    edits = gen_edits(rng, rewraps, len(verts), faces, cells) if vdim == 3 else [[] for _ in range(rewraps)]
+    case = {"edits": edits, "kind": kind, "verts": verts, "edges": edges, "faces": faces, "cells": cells, "eattrs": eattrs,
             "cfg": cfg, "dim": dim, "routes": routes, "rewraps": rewraps, "malformed": malformed or not wf,
             "script": []}
     if wf and cfg == [True, True]:
         case["script"] = gen_script(rng, case)
     return case
+
+
+CLEAR3 = [["clear_fc"], ["clear_cc"], ["clear_cf"]]
+
+
+def gen_edits(rng, rewraps, nv, faces, cells):
+    """per rebuild: the edits applied to RawMeshData(mesh) before it is built again. Structural edits come with the
+    clear() of the corner containers, as the subdivision editors do; mesh.save-like clears of whole containers; clears
+    alone; a declared edge added."""
+    out = []
+    nv = max(nv, 1)
+    has_cells, has_faces = bool(cells), bool(faces)
+    for _ in range(rewraps):
+        kind = rng.choice(["none", "none", "none", "clears", "volume", "surface", "save", "edge"])
+        es = []
+        if kind == "clears":
+            es = [e for e in CLEAR3 if rng.random() < 0.6]
+            rng.shuffle(es)
+        elif kind == "volume":
+            es = [list(e) for e in CLEAR3]
+            for _ in range(rng.randint(1, 3)):
+                t = rng.choice(["add", "add", "set", "pop", "vertex"])
+                if t == "vertex":
+                    es.append(["add_vertex", [rng.randint(0, 3), rng.randint(0, 3), rng.randint(0, 3)]])
+                    nv += 1
+                elif t == "pop":
+                    es.append(["pop_cell"])
+                else:
+                    c = rng.sample(range(nv), 4) if nv >= 4 else [rng.randrange(nv) for _ in range(4)]
+                    es.append(["add_cell", c] if t == "add" else ["set_cell", rng.randrange(8), c])
+            has_cells = True
+        elif kind == "surface":
+            es = [list(e) for e in (CLEAR3 if (has_cells or rng.random() < 0.5) else CLEAR3[:1])]
+            for _ in range(rng.randint(1, 3)):
+                t = rng.choice(["add", "add", "set", "pop", "vertex"])
+                if t == "vertex":
+                    es.append(["add_vertex", [rng.randint(0, 3), rng.randint(0, 3), 0]])
+                    nv += 1
+                elif t == "pop":
+                    es.append(["pop_face"])
+                else:
+                    ar = rng.choice([3, 3, 4])
+                    f = rng.sample(range(nv), ar) if nv >= ar else [rng.randrange(nv) for _ in range(ar)]
+                    es.append(["add_face", f] if t == "add" else ["set_face", rng.randrange(8), f])
+            has_faces = True
+        elif kind == "save":
+            w = rng.choice(["edges", "faces", "cells"])
+            es = {"edges": [["clear_edges"]], "faces": [["clear_faces"], ["clear_fc"]],
+                  "cells": [["clear_cells"], ["clear_cc"], ["clear_cf"]]}[w]
+            if w == "faces" and has_cells:
+                es = es + [["clear_cf"]]
+        elif kind == "edge":
+            a, b = rng.randrange(nv), rng.randint(-1, nv + 1)
+            es = [["add_edge", [a, b]]]
+        out.append(es)
+    return out
 
 
 def gen_script(rng, case):
